@@ -17,6 +17,7 @@ EXPLANATION = (
     "(inactive) path is not touched before it is pushed; each test iteration builds a fresh solver and Path and "
     "resets it; nothing assigns into the shared pre-state; process-wide mutable state is limited to a reviewed "
     "list; uid() randomness only flows into symbol names. It does not run test orders."
+    " Also evaluated here: per-function configuration layers are built from the contract's configuration, never from the previous function's (C18 R18.4)."
 )
 ASSUMPTIONS = [
     "deepcopy semantics; z3 terms are immutable",
